@@ -1464,6 +1464,10 @@ int main(int argc, char** argv)
   {
     Plan p = prof->gen(a.one, a.tier);
     std::string root = "/dev/shm/quill-verif." + std::to_string(getpid());
+    if (char const* sfx = getenv("SIM_SCRATCH_SUFFIX")) // debugging aid: the outcome must not depend on the path
+    {
+      root += sfx;
+    }
     clean_dir(root);
     ChildResult cr = run_in_child(p, prof, root);
     static char const* kinds[] = {"OK", "VIOLATION", "INCONCLUSIVE", "HARNESS-ERROR"};
